@@ -161,8 +161,29 @@ Proof. vm_compute. reflexivity. Qed.
 Lemma grpH : forall rt, In rt cfg_response_types -> idt_hashes_ok rt = true.
 Proof. intros rt H. pose proof grpH_table as T. rewrite forallb_forall in T. exact (T _ H). Qed.
 
+(* ------------------------------------------------------------------ group I: registered ID Token encryption *)
+Lemma grpI_reg_table :
+  forallb (fun a => forallb (fun e => idt_enc_registered (Some (a, e))) rp_idt_enc_encs) rp_idt_enc_algs = true.
+Proof. vm_compute. reflexivity. Qed.
+
+Lemma grpI_rt_table :
+  forallb (fun rt => Bool.eqb (negb (str_in (PS "id_token") (artefacts_op rt)) && negb (uses_token_endpoint rt))
+                              (negb (has_word "id_token" rt || uses_token_endpoint rt))) cfg_response_types = true.
+Proof. vm_compute. reflexivity. Qed.
+
+Lemma grpI : forall rt enc, In rt cfg_response_types -> in_opt2 enc rp_idt_enc_algs rp_idt_enc_encs ->
+  idt_enc_front_ok rt enc && idt_enc_token_ok rt enc = negb (lim_idt_enc rt enc).
+Proof.
+  intros rt enc Hrt He. unfold idt_enc_front_ok, idt_enc_token_ok, lim_idt_enc.
+  pose proof grpI_rt_table as T. rewrite forallb_forall in T. specialize (T _ Hrt). apply eqb_true_eq in T.
+  destruct enc as [[a e]|]; [|reflexivity].
+  destruct He as [Ha He]. pose proof grpI_reg_table as R.
+  rewrite forallb_forall in R. specialize (R _ Ha). rewrite forallb_forall in R. specialize (R _ He).
+  rewrite R. cbn [is_some andb]. exact T.
+Qed.
+
 (* ------------------------------------------------------------------ factorisation and the product theorem *)
-(* the checks of one flow regroup into nine independent groups *)
+(* the checks of one flow regroup into ten independent groups *)
 Lemma checks_factor : forall c i,
   forallb snd (checks c i) =
     grpA_ok (c_rt c) (c_rm c) (i_rp_all_rts i) (i_op_explicit i)
@@ -172,6 +193,7 @@ Lemma checks_factor : forall c i,
     && par_claims_ok (c_tr c) (i_claims i)
     && grpC_ok (c_rt c) (c_idt_sig c)
     && idt_hashes_ok (c_rt c)
+    && (idt_enc_front_ok (c_rt c) (c_idt_enc c) && idt_enc_token_ok (c_rt c) (c_idt_enc c))
     && ui_sig_ok (c_rt c) (c_ui_sig c)
     && ui_enc_ok (c_rt c) (c_ui_enc c) (i_secret_len i).
 Proof.
@@ -180,10 +202,10 @@ Qed.
 
 Lemma checks_limits : forall c i, in_product c -> forallb snd (checks c i) = negb (limits c i).
 Proof.
-  intros c i (Hrt & Hrm & Hauth & Hsig & _ & Hus & Hue & Hp).
+  intros c i (Hrt & Hrm & Hauth & Hsig & Hie & Hus & Hue & Hp).
   rewrite checks_factor.
   rewrite (grpA _ _ (i_rp_all_rts i) (i_op_explicit i) Hrt Hrm), (grpG _ Hp), (grpB _ (c_tr c) _ Hrt Hauth),
-    grpD, grpD', (grpC _ _ Hrt Hsig), (grpH _ Hrt), (grpE _ _ Hrt Hus), (grpF (c_rt c) _ (i_secret_len i) Hue).
+    grpD, grpD', (grpC _ _ Hrt Hsig), (grpH _ Hrt), (grpI _ _ Hrt Hie), (grpE _ _ Hrt Hus), (grpF (c_rt c) _ (i_secret_len i) Hue).
   unfold limits, grpA_lim. btauto.
 Qed.
 
@@ -202,9 +224,9 @@ Qed.
 Theorem outcome_total : forall c i, flow_outcome c i = Completed \/ exists p, flow_outcome c i = FailAt p.
 Proof. intros c i. destruct (flow_outcome c i); eauto. Qed.
 
-(* independence: token formats and the ID Token encryption setting never enter *)
-Theorem outcome_independent : forall rt rm auth a1 r1 a2 r2 sig e1 e2 us ue tr p i,
-  flow_outcome (mkCfg rt rm auth a1 r1 sig e1 us ue tr p) i = flow_outcome (mkCfg rt rm auth a2 r2 sig e2 us ue tr p) i.
+(* independence: the token formats never enter *)
+Theorem outcome_independent : forall rt rm auth a1 r1 a2 r2 sig e us ue tr p i,
+  flow_outcome (mkCfg rt rm auth a1 r1 sig e us ue tr p) i = flow_outcome (mkCfg rt rm auth a2 r2 sig e us ue tr p) i.
 Proof. reflexivity. Qed.
 
 (* ------------------------------------------------------------------ dimension by dimension *)
